@@ -5,8 +5,8 @@ package main
 // stored block; SetConfirms de-duplicates by bytes only); what makes the pair atomic is that InsertConfirms holds chainLock over
 // both. This probe forces the one interleaving that matters on a REAL engine over a REAL store: two packets for the same block,
 // each carrying the same deputy's confirmation in another encoding ((r, s, v) and (r, N-s, v^1): no key needed), delivered by two
-// goroutines; a pass-through wrapper around the store (it changes no data) holds the first reader of the block until the second
-// reader has arrived — or, when the engine serialises the two requests as it must, until a short timeout. The verdict is the
+// goroutines; a pass-through wrapper around the store (it changes no data) holds the first WRITER of the confirmations until the second
+// writer has arrived — or, when the engine serialises the two requests as it must, until a short timeout. The verdict is the
 // property's own: the stable pointer may move only with 2/3 DISTINCT deputies, judged on the keys the harness itself used.
 
 import (
@@ -35,12 +35,16 @@ type c03GateDB struct {
 	waited  int // readers that gave up waiting (the engine serialised the requests)
 }
 
-func (g *c03GateDB) GetBlockByHash(h common.Hash) (*types.Block, error) {
-	b, err := g.ChainDatabase.GetBlockByHash(h)
+// SetConfirms is the WRITE of the check-then-act pair (every read of the block — DPoVP.insertConfirms and, a second time,
+// Validator.VerifyConfirmPacket — lies before it): the first writer is held until the second writer has arrived too, i.e. until
+// both requests have finished ALL their reads before either wrote — or, when the engine serialises the two requests as it must
+// (the second one is still waiting for chainLock and never gets here), until a short timeout. (Review round 8, R5: gating the
+// first read let the de-duplicating second read slip through ungated; the catch then depended on scheduling luck.)
+func (g *c03GateDB) SetConfirms(h common.Hash, pack []types.SignData) (*types.Block, error) {
 	g.mu.Lock()
 	if h != g.armed || g.both == nil {
 		g.mu.Unlock()
-		return b, err
+		return g.ChainDatabase.SetConfirms(h, pack)
 	}
 	g.arrived++
 	ch := g.both
@@ -56,7 +60,7 @@ func (g *c03GateDB) GetBlockByHash(h common.Hash) (*types.Block, error) {
 		g.waited++
 		g.mu.Unlock()
 	}
-	return b, err
+	return g.ChainDatabase.SetConfirms(h, pack)
 }
 
 func nodeIDOfKey(k *ecdsa.PrivateKey) []byte { return crypto.PrivateKeyToNodeID(k) }
@@ -169,7 +173,7 @@ func c03ConfirmRaceOnce(c *Ctx, round int) {
 	if serialised {
 		c.Count("race:confirm-same-deputy-two-encodings:engine-serialised-the-requests")
 	} else {
-		c.Count("race:confirm-same-deputy-two-encodings:both-read-before-either-wrote")
+		c.Count("race:confirm-same-deputy-two-encodings:both-finished-reading-before-either-wrote")
 	}
 	after, err := raw.GetBlockByHash(blk.Hash())
 	if err != nil {
